@@ -208,7 +208,11 @@ Definition connect_upstream (cf : config) (ps : list plugin) (r : request) (conn
 (* _queue_request_for_upstream (helper introduced by fix e1d01d6): scrub, Via, rebuild, queue *)
 Definition scrub (cf : config) (conn_tunnel : bool) (r : request) : request :=
   let hs := del_headers [PROXY_AUTHORIZATION; PROXY_CONNECTION] (rq_headers r) in
-  let hs := if conn_tunnel then hs else add_headers [(bs "Via", bs "1.1 " ++ cf_agent cf)] hs in
+  let hs := if conn_tunnel then hs
+            else add_headers [(bs "Via", match dict_get (bs "via") hs with
+                                         | Some (_, v) => v ++ bs ", " ++ bs "1.1 " ++ cf_agent cf     (* fix 64e4fe1: append to a received Via *)
+                                         | None => bs "1.1 " ++ cf_agent cf
+                                         end)] hs in
   set_headers r hs.
 
 Definition queue_request_for_upstream (cf : config) (conn_tunnel : bool) (r : request) (l : log)
